@@ -4,6 +4,8 @@ pub mod dedup;
 pub mod derived;
 pub mod encoding;
 pub mod graphs;
+pub mod isolation;
+pub mod safety;
 pub mod evolution;
 pub mod faults;
 pub mod framing;
@@ -33,6 +35,8 @@ pub fn run(cx: &Cx) -> PropResult {
         "C15" => sinks::run(cx),
         "C16" => compressed::run_c16(cx),
         "C17" => encoding::run_c17(cx),
+        "C18" => isolation::run_c18(cx),
+        "C19" => safety::run_c19(cx),
         other => {
             eprintln!("unknown property {other}");
             std::process::exit(2)
@@ -59,6 +63,8 @@ pub fn replay(cx: &Cx, case: &Value) -> Verdict {
         "C15" => sinks::replay(case),
         "C16" => compressed::replay_c16(case),
         "C17" => encoding::replay_c17(case),
+        "C18" => isolation::replay_c18(cx, case),
+        "C19" => safety::replay_c19(case),
         other => {
             eprintln!("unknown property {other}");
             std::process::exit(2)
